@@ -65,6 +65,8 @@ func propConfigs() map[string]*PropConfig {
 	add(&PropConfig{ID: "C26", Prefix: "VH_C26_", StrBytes: 24, Sets: []HarnessSet{hfiles("base", "base/c26.go")},
 		Thorough: func(n string) bool { return strings.Contains(n, "_T_") },
 		Explain: "the real base.ReadMultiline runs on one input line = concrete prefix (each lexical mode and bracket depth) + symbolic bytes (all 256 values) + concrete suffix; the oracle is a reference lexical automaton over the same bytes"})
+	add(&PropConfig{ID: "C04", Prefix: "VH_C04_", Sets: []HarnessSet{hfiles("base/untyped", "untyped/lib_untyped.go", "untyped/c04_convert_gen.go", "untyped/c04.go")},
+		Explain: "the real untyped.ConvertLiteralCheckOverflow (with base/reflect.ConvertValue) and Lit.extractNumber / Lit.Convert are executed on symbolic constants; go/constant values are modelled as exact integers"})
 	xrp := "(*github.com/cosmos72/gomacro/xreflect.xtype)."
 	add(&PropConfig{ID: "C34", Prefix: "VH_C34_", Sets: []HarnessSet{hfiles("xreflect", "xreflect/lib_xreflect.go", "xreflect/c34_gen.go")},
 		Redirect: map[string]string{xrp + "NumMethod": "vhModelNumMethod", xrp + "Method": "vhModelMethod", xrp + "GetMethods": "vhModelGetMethods"},
